@@ -37,11 +37,18 @@ fn word_pos(rb: &[u8; 64], pos: u64, words_before: u16) -> u64 {
 // memory limits in CBMC. The composition is split: the dispatch of `check` is proved by the Verus unit
 // v_dispatch against the FSM step contract (full_fsm_step) and the handler contracts below.
 
-static mut STUB_RULE_N: u8 = 0;
+struct HandlerRec {
+    marker: u64,
+    rule_n: u8,
+    prf_calls: u32,
+    store_calls: u32,
+}
+// one static with a unique marker (see support.rs)
+static mut HR: HandlerRec = HandlerRec { marker: 0x5EED_0000_0000_0007, rule_n: 0, prf_calls: 0, store_calls: 0 };
 /// stand-in for a rule function returning Result<(), Vec<String>> (verified separately by Verus unit
-/// v_tdh_rules): returns Err with STUB_RULE_N messages, or Ok when 0.
+/// v_tdh_rules): returns Err with HR.rule_n messages, or Ok when 0.
 fn stub_rule_result() -> Result<(), Vec<String>> {
-    let n = unsafe { STUB_RULE_N };
+    let n = unsafe { HR.rule_n };
     if n == 0 {
         Ok(())
     } else {
@@ -269,7 +276,7 @@ fn full_handler_rule_wrappers() {
     v.status_words.replace_tdh(Tdh::from_buf(&w[..]).unwrap());
     let n: u8 = kani::any();
     kani::assume(n <= 2);
-    unsafe { STUB_RULE_N = n };
+    unsafe { HR.rule_n = n };
     let which: u8 = kani::any();
     kani::assume(which <= 2);
     if which == 0 {
@@ -343,13 +350,11 @@ fn stave_validator(rb: &[u8; 64], pos: u64, words_before: u16) -> V {
     v
 }
 
-static mut PRF_CALLS: u32 = 0;
 fn stub_process_readout_frame_count<T: RDH, C: ChecksOpt + FilterOpt + CustomChecksOpt>(_v: &mut CdpRunningValidator<T, C>) {
-    unsafe { PRF_CALLS += 1 };
+    unsafe { HR.prf_calls += 1 };
 }
-static mut STORE_CALLS: u32 = 0;
 fn stub_store_lane_data<C: CustomChecksOpt>(_v: &mut super::readout_frame::ItsReadoutFrameValidator<C>, _w: &[u8]) {
-    unsafe { STORE_CALLS += 1 };
+    unsafe { HR.store_calls += 1 };
 }
 // @harness id=full_handler_tdh_stave props=C13,C09,C01,C02,C07,C04 kind=full tier=quick fns=CdpRunningValidator::preprocess_tdh,ItsReadoutFrameValidator::new_frame,ItsReadoutFrameValidator::is_in_frame,CdpRunningValidator::set_current_rdh stubs=alloc::fmt::format,core::fmt::write,flume::Sender::send
 // Stave mode: a TDH without continuation opens a readout frame at its own offset unless one is open;
@@ -403,7 +408,7 @@ fn full_handler_tdt_stave() {
     let w: [u8; 10] = kani::any();
     v.preprocess_tdt(&w[..]);
     let done = bits(w80(&w), 64, 64) == 1;
-    assert!(unsafe { PRF_CALLS } == done as u32, "[C13][C01][C02] a readout frame ends (and is processed) exactly at a TDT with packet_done");
+    assert!(unsafe { HR.prf_calls } == done as u32, "[C13][C01][C02] a readout frame ends (and is processed) exactly at a TDT with packet_done");
     assert!(*v.status_words.tdt().unwrap() == Tdt::from_buf(&w[..]).unwrap(), "[C02] the TDT is stored before the frame is processed");
     assert!((sent_errors() > 0) == !spec_tdt_sane(&w), "[C01][C02][C11] TDT sanity is reported as in the other modes");
     core::mem::forget(v);
@@ -429,6 +434,6 @@ fn full_handler_data_word_stave() {
     kani::assume(!(spec_is_ob_id(id) && !spec_data_id_valid(id)));
     v.preprocess_data_word(&w[..]);
     let stored = spec_is_ib_id(id) || spec_is_ob_id(id);
-    assert!(unsafe { STORE_CALLS } == stored as u32, "[C13][C01][C02] lane data of every IB/OB data word is stored exactly once for the frame checks");
+    assert!(unsafe { HR.store_calls } == stored as u32, "[C13][C01][C02] lane data of every IB/OB data word is stored exactly once for the frame checks");
     core::mem::forget(v);
 }
